@@ -151,7 +151,11 @@ impl Report {
             self.samples.push(json!("(no sample recorded)"));
         }
         let mut replay_paths = Vec::new();
+        let child = std::env::var("VERIF_DRAW_CHILD").is_ok();
         for (i, v) in new_violations.iter().enumerate() {
+            if child {
+                break;
+            }
             let cls = v.class.replace('/', "_").replace(' ', "_");
             let p = format!("{}/replays/{}_{}_{}_{}.json", VERIF_DIR, self.prop, self.tier, cls, i);
             let mut j = v.to_json();
@@ -182,6 +186,13 @@ impl Report {
             "wall_s": (wall * 1000.0).round() / 1000.0,
             "violations": total,
         });
+        if std::env::var("VERIF_DRAW_CHILD").is_ok() {
+            // a rebuilt-draw child of a thorough run: report to the parent on stdout, write nothing
+            let summary = json!({"states": self.states, "transitions": self.transitions, "violations": total, "violation_classes": ev["coverage"]["violation_classes"], "counters": self.counters, "notes": self.notes,
+                "first_violations": new_violations.iter().take(3).map(|v| v.to_json()).collect::<Vec<_>>(), "vacuous": vacuous});
+            println!("DRAW-RESULT {}", summary);
+            return if !vacuous.is_empty() { 2 } else if new_violations.is_empty() { 0 } else { 1 };
+        }
         let _ = std::fs::create_dir_all(format!("{}/evidence", VERIF_DIR));
         let evp = format!("{}/evidence/{}.json", VERIF_DIR, self.prop);
         if let Err(e) = std::fs::write(&evp, serde_json::to_string_pretty(&ev).unwrap()) {
